@@ -10,10 +10,13 @@ import (
 	"runtime"
 	"runtime/debug"
 	"strings"
+	"sync"
+	"sync/atomic"
 	"time"
 
 	"github.com/tetratelabs/wazero"
 	"github.com/tetratelabs/wazero/api"
+	"github.com/tetratelabs/wazero/experimental"
 	"github.com/tetratelabs/wazero/experimental/table"
 	"github.com/tetratelabs/wazero/sys"
 	"github.com/tetratelabs/wazero/verifharness/core"
@@ -270,6 +273,77 @@ func (e *executor) callExport(mod api.Module, name string, args []uint64) string
 	})
 }
 
+// concInst: K goroutines instantiate K importers of the same exporter's table and memory at once. An import
+// resolver (called right before a module's imports are resolved) serves as the barrier, so that all of them enter
+// the registration with the table together. The twin instantiates sequentially. Afterwards, sequentially and in
+// index order, instance i installs its function into slot Idx+i.
+func (e *executor) concInst(op *Op) string {
+	rt := e.rts[op.RT]
+	if rt == nil {
+		return "skip:runtime-dropped"
+	}
+	k := op.N
+	mods := make([]api.Module, k)
+	errs := make([]string, k)
+	one := func(i int, ctx context.Context) {
+		errs[i] = guard(func() string {
+			cm := e.comps[op.RT][int(op.Args[i])]
+			if cm == nil {
+				return "skip:no-compiled-module"
+			}
+			m, err := rt.InstantiateModule(ctx, cm, wazero.NewModuleConfig().WithName(""))
+			if err != nil {
+				return errClass(err)
+			}
+			mods[i] = m
+			return "ok"
+		})
+	}
+	if e.twin {
+		for i := 0; i < k; i++ {
+			one(i, e.ctx)
+		}
+	} else {
+		e.count("concurrent_instantiation_steps")
+		e.out.Counters["concurrent_instantiations"] += k
+		procs := k
+		if procs > 8 {
+			procs = 8
+		}
+		old := runtime.GOMAXPROCS(procs)
+		var arrived, released atomic.Int32
+		ctx := experimental.WithImportResolver(e.ctx, func(string) api.Module {
+			if arrived.Add(1) >= int32(k) {
+				released.Store(1)
+			}
+			for spins := 0; released.Load() == 0 && spins < 2000000; spins++ {
+				runtime.Gosched()
+			}
+			return nil // resolve through the store as usual
+		})
+		var wg sync.WaitGroup
+		for i := 0; i < k; i++ {
+			wg.Add(1)
+			go func(i int) {
+				defer wg.Done()
+				one(i, ctx)
+			}(i)
+		}
+		wg.Wait()
+		runtime.GOMAXPROCS(old)
+	}
+	var sb strings.Builder
+	for i := 0; i < k; i++ {
+		sb.WriteString(errs[i])
+		if mods[i] != nil {
+			e.insts[op.Inst+i] = mods[i]
+			sb.WriteString("/" + e.callExport(mods[i], "install", []uint64{uint64(op.Idx + i)}))
+		}
+		sb.WriteByte(' ')
+	}
+	return sb.String()
+}
+
 func (e *executor) handles(op *Op) []wazero.CompiledModule {
 	if op.H > 0 {
 		return e.comps2[op.RT]
@@ -324,6 +398,8 @@ func (e *executor) exec(op *Op, inCall bool) string {
 			e.count("instantiations")
 			return "ok"
 		})
+	case "concinst":
+		return e.concInst(op)
 	case "call":
 		mod := e.insts[op.Inst]
 		if mod == nil {
@@ -430,6 +506,20 @@ func (e *executor) exec(op *Op, inCall bool) string {
 		return ""
 	}
 	switch op.Kind {
+	case "closemany":
+		for _, id := range op.Args {
+			if mod := e.insts[id]; mod != nil {
+				e.count("close_module")
+				guard(func() string { mod.Close(e.ctx); return "" })
+			}
+		}
+	case "dropmany":
+		for _, id := range op.Args {
+			if e.insts[id] != nil {
+				e.count("drop_module")
+			}
+			e.insts[id] = nil
+		}
 	case "closemod":
 		if mod := e.insts[op.Inst]; mod != nil {
 			e.count("close_module")
